@@ -49,7 +49,7 @@ def judge(ctx, cfgs, tasks, results):
 
 
 def run(ctx):
-    per = 80 if ctx.tier == "thorough" else 10
+    per = 120 if ctx.tier == "thorough" else 30
     cfgs, tasks = gen_sessions(ctx, per)
     results = EP.common.pmap(EP.run_session_task, tasks)
     judge(ctx, cfgs, tasks, results)
